@@ -70,12 +70,17 @@ DDrainGen(nn, ni) ==
   /\ nn = Len(qNext) /\ ni = Len(qIn) /\ nn + ni > 0
   /\ UNCHANGED <<batch, hasReq, efd, running, alive, kind, by, seqno, nsub, nexec, lastExec, cancelled, fifoOk, threadOk>>
 (* ---- a deferred task is invoked ---- *)
-NextUp == IF batch # <<>> THEN Head(batch) ELSE IF drainN # <<>> THEN Head(drainN) ELSE IF drainI # <<>> THEN Head(drainI) ELSE 0
+\* the batch that is being executed: the swapped batch, else the local batches of the current drain generation
+CurBatch == IF batch # <<>> THEN batch ELSE IF drainN # <<>> THEN drainN ELSE drainI
+NextUp == IF CurBatch = <<>> THEN 0 ELSE Head(CurBatch)         \* what the code runs next (it works through a batch front to back)
+\* C01 fixes the order only among the submissions of one thread through one entry point: any member of the current batch may run
+\* as long as no earlier member of that batch comes from the same thread and queue (checked through fifoOk as well)
+Runnable(t) == \E i \in 1..Len(CurBatch) : CurBatch[i] = t /\ \A j \in 1..(i - 1) : <<by[CurBatch[j]], kind[CurBatch[j]]>> # <<by[t], kind[t]>>
 DExec(t, onLoopThread) ==
-  /\ t = NextUp /\ t # 0
-  /\ IF batch # <<>> THEN batch' = Tail(batch) /\ UNCHANGED <<drainN, drainI>>
-     ELSE IF drainN # <<>> THEN drainN' = Tail(drainN) /\ UNCHANGED <<batch, drainI>>
-     ELSE drainI' = Tail(drainI) /\ UNCHANGED <<batch, drainN>>
+  /\ t # 0 /\ Runnable(t)
+  /\ IF batch # <<>> THEN batch' = Without(batch, t) /\ UNCHANGED <<drainN, drainI>>
+     ELSE IF drainN # <<>> THEN drainN' = Without(drainN, t) /\ UNCHANGED <<batch, drainI>>
+     ELSE drainI' = Without(drainI, t) /\ UNCHANGED <<batch, drainN>>
   /\ nexec' = [nexec EXCEPT ![t] = @ + 1]
   /\ LET x == <<by[t], kind[t]>> IN
        /\ fifoOk' = (fifoOk /\ seqno[t] > lastExec[x]) /\ lastExec' = [lastExec EXCEPT ![x] = seqno[t]]
